@@ -45,6 +45,8 @@ pub(crate) fn rem(
                     divisor_n_frac_digits,
                 )),
                 None => {
+                    #[cfg(fpdec_verif)]
+                    fpdec_core::verif_cov::hit(27);
                     let mut rem = divident_coeff % divisor_coeff;
                     while rem != 0 && shift > 0 {
                         match rem.checked_mul(10) {
@@ -52,10 +54,17 @@ pub(crate) fn rem(
                                 rem = shifted_rem % divisor_coeff;
                             }
                             None => {
+                                #[cfg(fpdec_verif)]
+                                fpdec_core::verif_cov::hit(28);
                                 return Err(DecimalError::InternalOverflow)
                             }
                         }
                         shift -= 1;
+                    }
+                    #[cfg(fpdec_verif)]
+                    if shift > 0 {
+                        // stepwise reduction reached zero early
+                        fpdec_core::verif_cov::hit(29);
                     }
                     Ok((rem, divisor_n_frac_digits))
                 }
